@@ -59,4 +59,11 @@ pub fn __map_insert_entry<V>(m: &mut UstrMap<V>, k: Ustr, v: V)
     ensures final(m)@ == old(m)@.insert(k, v)
 { unimplemented!() }
 
+impl<V> UstrMap<V> {
+    #[verifier::external_body]
+    pub fn is_empty(&self) -> (r: bool)
+        ensures r == (forall|k: Ustr| !self@.contains_key(k))
+    { unimplemented!() }
+}
+
 } // verus!
